@@ -15,10 +15,10 @@ for every `D` with `compileTok cExpr = .ok D` and ALL token lists.
 namespace CL.Syn
 
 /-- `[Name(), OneOrMore(Balanced("(", ")"))]` -/
-def cExpr : Rx Pred := .cat (.atom .name) (.plus (.atom (.balanced (.value [40]) (.value [41]))))
+def cExpr : Rx Pred := .cat (.atom .name) (.plus (.atom (.balanced (.symbol [40]) (.symbol [41]))))
 
 /-- `Balanced("(", ")")` -/
-def bal : Pred := .balanced (.value [40]) (.value [41])
+def bal : Pred := .balanced (.symbol [40]) (.symbol [41])
 
 def S1 : DState := .set [2, 3]
 def S2 : DState := .set [3, 4, 5]
@@ -53,20 +53,20 @@ theorem step_start (ds : Depths) (x : Tok) :
 
 theorem accept_open (ds : Depths) {x : Tok} (h : isOpen x = true) :
     acceptTok bal ds x = (true, setDepth ds bal (getDepth ds bal + 1)) := by
-  have : (Pred.value [40]).eval x = true := h
+  have : (Pred.symbol [40]).eval x = true := h
   simp only [bal, acceptTok, this, if_true]
 
 theorem accept_close (ds : Depths) {x : Tok} (h : isOpen x = false) (hc : isClose x = true) :
     acceptTok bal ds x =
       (decide (0 ≤ getDepth ds bal - 1), setDepth ds bal (getDepth ds bal - 1)) := by
-  have h1 : (Pred.value [40]).eval x = false := h
-  have h2 : (Pred.value [41]).eval x = true := hc
+  have h1 : (Pred.symbol [40]).eval x = false := h
+  have h2 : (Pred.symbol [41]).eval x = true := hc
   simp only [bal, acceptTok, h1, h2, if_true, Bool.false_eq_true, if_false]
 
 theorem accept_other (ds : Depths) {x : Tok} (h : isOpen x = false) (hc : isClose x = false) :
     acceptTok bal ds x = (decide (0 < getDepth ds bal), ds) := by
-  have h1 : (Pred.value [40]).eval x = false := h
-  have h2 : (Pred.value [41]).eval x = false := hc
+  have h1 : (Pred.symbol [40]).eval x = false := h
+  have h2 : (Pred.symbol [41]).eval x = false := hc
   simp only [bal, acceptTok, h1, h2, Bool.false_eq_true, if_false]
 
 /-! ## any table that ends with `s1 --Balanced--> s2 --Balanced--> s2` -/
